@@ -141,8 +141,23 @@ func (d *drv[T]) Unsubscribe(bus *ebu.EventBus, class int, ctxAware bool) error 
 	return ebu.Unsubscribe[T](bus, mkPlain[T](class, nil))
 }
 
-func (d *drv[T]) Publish(bus *ebu.EventBus, id uint64) { ebu.Publish(bus, d.mk(id)) }
+// ViaAny says which publishes hand the event over as an interface value (Publish[any]): a
+// forwarder that received the event from a chan any / []any. The bus routes by the event's dynamic
+// type, so nothing else may change.
+func ViaAny(id uint64) bool { return id%5 == 3 }
+
+func (d *drv[T]) Publish(bus *ebu.EventBus, id uint64) {
+	if ViaAny(id) {
+		ebu.Publish[any](bus, d.mk(id))
+		return
+	}
+	ebu.Publish(bus, d.mk(id))
+}
 func (d *drv[T]) PublishContext(bus *ebu.EventBus, ctx context.Context, id uint64) {
+	if ViaAny(id) {
+		ebu.PublishContext[any](bus, ctx, d.mk(id))
+		return
+	}
 	ebu.PublishContext(bus, ctx, d.mk(id))
 }
 func (d *drv[T]) Clear(bus *ebu.EventBus)    { ebu.Clear[T](bus) }
